@@ -7,6 +7,7 @@ import Kaira.VerbsChan
 import Kaira.VerbsPolar
 import Kaira.VerbsSoft
 import Kaira.VerbsLink
+import Kaira.VerbsConv
 open Kaira
 
 structure DState where
@@ -48,6 +49,7 @@ def dispatch (st : DState) (line : String) : DState × String :=
         fun _ => Verbs.cpolar st.rank toks,
         fun _ => Verbs.csoft toks,
         fun _ => Verbs.clink st.codes st.tables toks,
+        fun _ => Verbs.cconv toks,
         fun _ => natVerb verb args,
         fun _ => Verbs.c16 toks,
         fun _ => Verbs.c17 toks,
